@@ -106,6 +106,13 @@ def gen_alm_op(rng, stack=None, force_iso=False, **over):
             pass
         extra.update(L0=f2h(0.95 * q * (1.0 if force_iso else rng.choice([1.0, 1.0, 0.5]))),
                      eager='1' if force_iso else str(rng.choice([1, 1, 0])))
+    if rng.random() < 0.3:
+        # the problem supplies its own fused ψ / ∇ψ and scribbles over the work vectors
+        extra['wmscratch'] = '1'
+        if stack == 'fista' and rng.random() < 0.7:
+            # fixed step size (L_min = L_max): a valid Lipschitz bound of ∇ψ for the drawn penalties is not
+            # known in advance; a large one keeps FISTA convergent on these small problems
+            extra['Lmin'] = extra['Lmax'] = f2h(rng.choice([64.0, 256.0, 1024.0]))
     st = S.gen_start(rng, p)
     tol = rng.choice([1e-4, 1e-6, 1e-8])
     dtol = rng.choice([1e-4, 1e-6, 1e-8])
